@@ -278,13 +278,13 @@ def uniform_refinement(image: darsia.Image, levels: int) -> darsia.Image:
                 slice_0 = i_slice(slice(0, None, 2))
                 slice_1 = i_slice(slice(1, None, 2))
 
-                # Determine weight for slice_0 elements
-                axis_length = image.img.shape[i]
+                # Determine weight for slice_0 elements (of the current array); for odd
+                # lengths, the last element has no partner and counts fully.
+                axis_length = array.shape[i]
                 weight_0 = 0.5 * np.ones(array[slice_0].shape)
                 half_axis_length = int(np.floor(axis_length) / 2)
-                double_axis_length = 2 * half_axis_length
                 if axis_length % 2 == 1:
-                    weight_0[i_slice(slice(double_axis_length, None))] = 1
+                    weight_0[i_slice(slice(half_axis_length, None))] = 1
 
                 # The weight for slice_1 is constant
                 weight_1 = 0.5
@@ -292,7 +292,7 @@ def uniform_refinement(image: darsia.Image, levels: int) -> darsia.Image:
                 # Weighted sum for coarsening
                 sub_array_0 = array[slice_0]
                 sub_array_1 = array[slice_1]
-                array = np.multiply(weight_1, sub_array_0)
+                array = np.multiply(weight_0, sub_array_0)
                 array[i_slice(slice(0, half_axis_length))] += np.multiply(
                     weight_1, sub_array_1
                 )
